@@ -87,6 +87,11 @@ func (e *Engine) resolveType(text, pkg string) (Sort, types.Type) {
 	if strings.HasPrefix(text, "(") {
 		return Sort(text), nil
 	}
+	for _, q := range e.specs.Sorts {
+		if q == text {
+			return Sort(text), nil
+		}
+	}
 	t := e.goType(text, pkg)
 	return e.SortOf(t), t
 }
@@ -116,6 +121,8 @@ func (e *Engine) goType(text, pkg string) types.Type {
 		return types.Typ[types.Uint]
 	case "error":
 		return types.Universe.Lookup("error").Type()
+	case "interface{}", "interface {}", "any":
+		return types.NewInterfaceType(nil, nil)
 	}
 	pname, tname := "", text
 	if i := strings.LastIndex(text, "."); i >= 0 {
@@ -312,6 +319,20 @@ func (fx *FX) specVal(x *SX, env *SEnv, cur, old *State) Val {
 		bt := body.T
 		if x.Name == "forall" {
 			bt = Imp(And(facts...), bt)
+			if len(x.Trig) > 0 {
+				var pats strings.Builder
+				for _, grp := range x.Trig {
+					pats.WriteString(" :pattern (")
+					for i, t := range grp {
+						if i > 0 {
+							pats.WriteByte(' ')
+						}
+						pats.WriteString(fx.specVal(t, nenv, cur, old).T)
+					}
+					pats.WriteString(")")
+				}
+				bt = fmt.Sprintf("(! %s%s)", bt, pats.String())
+			}
 			return Val{T: fmt.Sprintf("(forall (%s) %s)", strings.Join(decls, " "), bt), S: SBool}
 		}
 		bt = And(append(facts, bt)...)
@@ -495,7 +516,7 @@ func (fx *FX) specCall(x *SX, env *SEnv, cur, old *State) Val {
 				a := &act{fx: fx}
 				_, _, ln := a.mapHeaps(mt)
 				h := fx.sv(cur, ln, ArrS(SRef, SInt))
-				return Val{T: Sel(h, v.T), S: SInt}
+				return Val{T: Ite(Eq(v.T, "null"), "0", Sel(h, v.T)), S: SInt}
 			}
 		}
 		specErrf("len of %s", args[0])
@@ -548,6 +569,51 @@ func (fx *FX) specCall(x *SX, env *SEnv, cur, old *State) Val {
 	case "off":
 		v := ev(0)
 		return Val{T: App("soff", v.T), S: SInt}
+	case "seq":
+		// seq(s): the content of slice s (in the current state) as an abstract sequence
+		v := ev(0)
+		if v.S != SSlice || v.GT == nil {
+			specErrf("seq() needs a typed slice: %s", args[0])
+		}
+		et := v.GT.Underlying().(*types.Slice).Elem()
+		srt := e.SortOf(et)
+		q, ok := e.seqSortFor(srt)
+		if !ok {
+			specErrf("no seqsort declared for element sort %s", srt)
+		}
+		h := fx.sv(cur, "Elem!"+typeName(et), ArrS(SRef, ArrS(SInt, srt)))
+		return Val{T: App("seqOf!"+q.Name, Sel(h, App("sbase", v.T)), v.T), S: Sort(q.Name)}
+	case "seqlen", "seqat", "sameseq":
+		v := ev(0)
+		q, ok := e.seqSortNamed(v.S)
+		if !ok {
+			specErrf("%s of a non-sequence %s", name, args[0])
+		}
+		switch name {
+		case "seqlen":
+			return Val{T: App("seqlen!"+q.Name, v.T), S: SInt, GT: types.Typ[types.Int]}
+		case "seqat":
+			return Val{T: App("seqat!"+q.Name, v.T, ev(1).T), S: Sort(q.Elem)}
+		}
+		return Val{T: App("seqext!"+q.Name, v.T, ev(1).T), S: SBool}
+	case "keysof", "valsof":
+		// content of a Go map as SMT arrays (presence row / value row)
+		m := ev(0)
+		if m.GT != nil {
+			if mt, ok := m.GT.Underlying().(*types.Map); ok {
+				a := &act{fx: fx}
+				has, val, _ := a.mapHeaps(mt)
+				ks := e.SortOf(mt.Key())
+				if name == "keysof" {
+					h := fx.sv(cur, has, ArrS(SRef, ArrS(ks, SBool)))
+					return Val{T: Sel(h, m.T), S: ArrS(ks, SBool)}
+				}
+				vs := e.SortOf(mt.Elem())
+				h := fx.sv(cur, val, ArrS(SRef, ArrS(ks, vs)))
+				return Val{T: Sel(h, m.T), S: ArrS(ks, vs)}
+			}
+		}
+		specErrf("%s of a non-map %s", name, args[0])
 	case "fzero":
 		return Val{T: "0.0", S: "Real"}
 	case "deref":
@@ -647,6 +713,12 @@ func (fx *FX) specCall(x *SX, env *SEnv, cur, old *State) Val {
 			srt, gt := e.resolveType(p.Type, d.Pkg)
 			if v.S == "Nil" {
 				v = Val{T: nilOf(srt), S: srt}
+			}
+			if v.S == SRef && srt == SIface && v.GT != nil {
+				// implicit conversion of a pointer to the interface it is passed as (as Go does at a call)
+				if _, isPtr := v.GT.Underlying().(*types.Pointer); isPtr {
+					v = Val{T: fmt.Sprintf("(mk-iface %s %s)", fx.ctx.Tag(typeName(v.GT)), v.T), S: SIface}
+				}
 			}
 			if v.S != srt {
 				specErrf("define %s: argument %d has sort %s, want %s", name, i, v.S, srt)
